@@ -88,9 +88,29 @@ def record_programs():
         yield "rec:both", ("prog", "e", None, ("u",), ("if", ("cmp", L, "==", L), T, F)), [{"u": 1}]
 
 
+def branch_pair_programs():
+    """two return statements of ONE program whose labels look alike (same str(), same weights) but differ in type or value:
+    each branch returns its own labels (tables shared between branches by a textual key would mix them up)"""
+    K = ("cmp", ("id", "k"), "==", ("lit", 1))
+    pairs = EQUAL_PAIRS + [("0", 0), ("1.5", 1.5), ("-3", -3), ("02134", 2134), ("1e5", 100000.0), ("inf", 1), ("A", "A "), ("A:1.0, B", "A"), ("a", "A"), (7, 7.0)]
+    for a, b in pairs:
+        for w in ("1", "2.5"):
+            t1 = ("ret", ((a, w), ("z", "1")))
+            t2 = ("ret", ((b, w), ("z", "1")))
+            envs = [{"u": i, "k": k} for i in range(10) for k in (1, 0)]
+            yield ("prog", "e", None, ("u",), ("if", K, t1, ("else", t2))), envs
+            yield ("prog", "e", None, ("u",), ("if", K, t2, ("elif", ("not", K), t1, None))), envs
+            yield ("prog", "e", None, ("u",), ("if", K, ("ret", ((a, w), (b, w))), ("else", ("ret", ((b, w), (a, w)))))), envs
+            yield ("prog", "e", None, ("u",), ("if", K, ("ret", ((a, w),)), ("else", ("ret", ((b, w),))))), envs[:4]
+
+
 def _work(units):
     acc = progcheck.Acc()
     for v in units:
+        if v == "__branch_pairs__":
+            for ast, envs in branch_pair_programs():
+                progcheck.check_prog(acc, ast, envs, "lit:branch-pairs")
+            continue
         if v == "__records__":
             for pos, ast, envs in record_programs():
                 progcheck.check_prog(acc, ast, envs, f"lit:{pos}")
@@ -168,7 +188,7 @@ def run(res, tier):
         nums += [i, -i] if i else [0]
     for d in lits.DECS:
         nums += [float(d), -float(d)]
-    units = vals + nums + ["__equal_pairs__", "__comment_twins__", "__recompile_pairs__", "__records__"]
+    units = vals + nums + ["__equal_pairs__", "__comment_twins__", "__recompile_pairs__", "__records__", "__branch_pairs__"]
     for w in pmap(_work, permuted(units, "c05"), chunk=8):
         res.merge_worker(w)
     res.set("states", res.cov.get("programs", 0))
